@@ -26,7 +26,7 @@ C11_SHAPES_SLOW = ['c11_prec_not_eq', 'c11_prec_not_not_eq']
 C11_GATING = ['c11_gating_' + d + '_bounded' for d in ('define', 'undef', 'include', 'pragma', 'unknown', 'ifdef', 'if', 'elif', 'else', 'endif')]
 
 ALL_V_UNITS = ['cond_chain', 'cond_file', 'cond_parser', 'bindings', 'lexer_digits', 'lexer_float', 'token_stream', 'source_manager', 'layout',
-               'hlsl_bindings', 'hlsl_analyse', 'msl_analyse', 'hlsl_expr', 'hlsl_exprs', 'hlsl_literal', 'msl_literal', 'evaluator', 'fmt_paren', 'unlex', 'parser_annotations', 'compile_params', 'pp_trim', 'pipelines']
+               'hlsl_bindings', 'hlsl_analyse', 'msl_analyse', 'hlsl_expr', 'hlsl_exprs', 'hlsl_literal', 'msl_literal', 'evaluator', 'fmt_paren', 'unlex', 'parser_annotations', 'compile_params', 'pp_trim', 'pipelines', 'compile_pipeline']
 
 PROPS = {
     'C01': {
@@ -37,7 +37,7 @@ PROPS = {
     },
     'C05': {
         'title': 'Reflection metadata agrees with the emitted source',
-        'v_units': ['hlsl_bindings', 'hlsl_analyse', 'msl_analyse'],
+        'v_units': ['hlsl_bindings', 'hlsl_analyse', 'msl_analyse', 'compile_pipeline'],
         # PipelineBindingLayout::finish (iterator adapters): reflected bind groups stay positional (5 min, 10 GB)
         'k_groups': [{'module': 'msl/pipeline.rs',
                       'harnesses': [('c05_msl_finish_keeps_bind_groups_positional_bounded', 'bounded:3 argument buffers of 0..2 entries')],
@@ -47,7 +47,7 @@ PROPS = {
     },
     'C06': {
         'title': 'Binding slots are allocated completely, contiguously and without overlap',
-        'v_units': ['bindings', 'compile_params'],
+        'v_units': ['bindings', 'compile_params', 'compile_pipeline'],
         # discharges the contract the Verus unit assumes for TypeLayer::is_object (reference pattern)
         'k_groups': [{'module': 'ir/ir_types.rs', 'harnesses': [('c06_is_object_contract', 'complete'), ('c06_register_type_table', 'complete')], 'tier': 'quick'}],
         'design_ref': 'DESIGN.md Part I, I.4 (C06)',
